@@ -73,3 +73,8 @@ CLAIMS["C07"] = (
     "Generated clustered particle lists and plateau-free score/angle maps; the result of clean_by_distance / scores_extract_particles is checked against the validity predicate of the statement (not against a re-implementation of the greedy order), plus field preservation, 1-based positions, score and angle lookup. Held on everything explored.",
     "Exact-distance and threshold ties are filtered and counted; optional arguments of the peak extraction left at defaults.",
 )
+CLAIMS["C18"] = (
+    "property-based differential test against brute-force neighbour search with explicit matrices + metamorphic rigid-motion invariance",
+    "Generated pairs of lists (clustered positions, partly disjoint tomogram sets, coincident lists, k up to 5, pixel sizes) are compared row by row (query id, rank) with a brute-force reference for neighbour identity, distance, offsets in both frames, angular distance and relative orientation; then both lists are moved rigidly per tomogram and the invariant columns must not change. Held on everything explored.",
+    "Distance ties filtered; query ids unique; explicit-matrix rotation algebra trusted.",
+)
